@@ -48,6 +48,11 @@ def edge_trees():
         _t("E_rel_int", Cfg("X", I, "x", defaults=[("4", None)]), Cfg("K", I, "k", defaults=[("5", None)]), Cfg("Y", B, "y", depends=["X < K"]), Cfg("Y2", B, None, defaults=[("y", "X >= 100")])),
         _t("E_menuconfig", Cfg("X", B, "x", menuconfig=True), Cfg("Y", B, "y", depends=["X"], defaults=[("y", None)]), Cfg("YS", S, "ys", depends=["X && Y"], defaults=[('"s"', None)])),
         _t("E_multidef", Cfg("X", B, "x"), Cfg("G", B, "g"), Cfg("Y", I, "y1", depends=["X"], defaults=[("1", None)]), Cfg("Y", I, "y2", depends=["G"], defaults=[("2", None)], extra=["# ignore: multiple-definition"])),
+        # the value of Y comes from elsewhere (set default / select); X reaches it only through `depends on`
+        _t("E_dd_setdef", Cfg("S", B, "s", defaults=[("y", None)], set_defaults=[("Y", "5", None)]), Cfg("X", B, "x", defaults=[("y", None)]), Cfg("Y", I, None, depends=["X"]), Cfg("Z", B, "z", depends=["Y = 5"])),
+        _t("E_dd_select", Cfg("S", B, "s", selects=[("Y", None)]), Cfg("X", B, "x", defaults=[("y", None)]), Cfg("Y", B, None, depends=["X"]), Cfg("Z", B, "z", depends=["Y"])),
+        # several prompts on one definition: the last one wins, with its own condition
+        _t("E_multi_prompt", Cfg("X", B, "x"), Cfg("Y", I, "y (advanced)", prompt_if="X", defaults=[("5", None)], extra=['prompt "y"']), Cfg("W", B, "w first", extra=['prompt "w (gated)" if X']), Choice("CH", "ch (advanced)", prompt_if="X", children=[Cfg("M1", B, "m1"), Cfg("M2", B, "m2")], extra=['prompt "ch"'])),
         _t("E_hexfloat", Cfg("X", H, "x", defaults=[("0x10", None)]), Cfg("Y", H, "y", ranges=[("X", "0xff", None)], defaults=[("0x20", None)]), Cfg("FX", F, "fx", defaults=[("1.5", None)]), Cfg("FY", F, "fy", ranges=[("0.0", "FX", None)], defaults=[("1.0", None)])),
     ]
     return out
